@@ -176,7 +176,7 @@ let () =
     let labels = List.filter_map (fun l ->
         match String.split_on_char ' ' (String.trim l) with
         | [name; i] when List.mem name ["enter"; "commit"; "bcast"; "release"; "poll"; "subscribe"; "start";
-                                        "hist"; "live"; "consume"; "probe"] -> Some (name, int_of_string i)
+                                        "hist"; "live"; "consume"; "probe"; "burst"; "drain"] -> Some (name, int_of_string i)
         | _ -> None) lines in
     List.iter print_endline (Schedgen.of_labels (locked = "1") cfg labels)
   | _ -> prerr_endline "usage: xsmodel seq|http|gen-sched|labels-sched"; exit 2
